@@ -344,6 +344,27 @@ def run(ctx):
                 edits.append(('rename', lambda x: x.rename({d.spec['latname']: 'renamed_latitude'})))
             if d.family in ('cf2d', 'shoc_simple'):
                 edits.append(('rename', lambda x: x.rename({d.spec['latname']: 'renamed_latitude'})))
+            # names that differ only by Unicode compatibility forms are different names: renaming a geometry variable to
+            # 'x²' and to 'x2' (superscript two / digit two), or to full-width letters, gives three different keys
+            if d.family in ('cf1d', 'cf2d', 'shoc_simple') and (d.family != 'cf1d' or d.spec['latname'] not in ds.dims):
+                base_name = d.spec['latname']
+                variants = [base_name + '\u00b2', base_name + '2', base_name + '\uff12', 'l\u00b5', 'l\u03bc']
+                with warnings.catch_warnings():
+                    warnings.simplefilter('ignore')
+                    streams = [attempt(lambda v=v: stream_of(ds.rename({base_name: v}))) for v in variants]
+                ctx.case((label, from_file, 'unicode renames'), True)
+                ctx.count('edit:renames differing by Unicode compatibility forms')
+                ok = [(v, st[1]) for v, st in zip(variants, streams) if st[0] == 'ok']
+                for i in range(len(ok)):
+                    for j in range(i + 1, len(ok)):
+                        if ok[i][1] == ok[j][1]:
+                            ctx.report('property', f'geometry variable renamed to {ok[i][0]!r} and to {ok[j][0]!r}: the same bytes are '
+                                       f'hashed, same key for different names', dict(case, edit='rename', names=[ok[i][0], ok[j][0]],
+                                                                                     kind='geometry_edit'))
+                            break
+                    else:
+                        continue
+                    break
             for ename, edit in edits:
                 with warnings.catch_warnings():
                     warnings.simplefilter('ignore')
